@@ -97,6 +97,7 @@ type Scenario struct {
 	Seed    uint64                  `json:"seed"`
 	Arm     string                  `json:"arm,omitempty"`
 	Project *ProjectSpec            `json:"project"`
+	LogBuf  *LogBufSpec             `json:"logbuf,omitempty"` // C18: workload on a bare log buffer instead of a project
 	Updates []*ProjectSpec          `json:"updates,omitempty"` // successive configurations for update ops (index = Op.N)
 	Files   map[string]string       `json:"files,omitempty"`   // extra files (override yaml, .env); the main file is rendered from Project
 	Extra   []string                `json:"extra_files,omitempty"`
@@ -168,7 +169,7 @@ func (p *ProjectSpec) Render(tmp string) string {
 	if p.LogNoJSON || p.LogFlush {
 		b.WriteString("log_configuration:\n")
 		if p.LogNoJSON {
-			b.WriteString("  disable_json: true\n  no_color: true\n  no_metadata: true\n")
+			b.WriteString("  disable_json: true\n  no_color: true\n  no_metadata: true\n  fields_order: [\"message\"]\n")
 		}
 		if p.LogFlush {
 			b.WriteString("  flush_each_line: true\n")
